@@ -20,7 +20,7 @@ TraceSpec == TraceInit /\ [][TraceNext]_<<l, vars>>
 
 Verdicts ==
     l >= 1 => LET r == Trace[l]  f == Failing(r) IN
-              /\ Monitor(f = {}, [l |-> l, monitors |-> f, bad |-> BadSamples(r)])
+              /\ Monitor(f = {}, [l |-> l, monitors |-> f, bad |-> BadSamples(r), deviation |-> DeviationOf(r.ents)])
               /\ ((~r.nofilter \/ ~r.parseOK \/ Missing(r) = {}) \/ Emit("DRIFT", [l |-> l, what |-> "missing", ents |-> Missing(r)]))
               /\ ((L1Broken(r.ents) <=> (f # {})) \/ Emit("DRIFT", [l |-> l, what |-> "l1"]))
 Accepted == TLCGet("stats").diameter - 1 = Len(Trace)
